@@ -105,6 +105,10 @@ type Options struct {
 	// LeaderHeads: only these rules grow a seed (nil: the first rule of a
 	// cycle entered at a position does).
 	LeaderHeads map[string]bool
+	// Inlined: rules that -optimize-grammar replaces by a copy wherever they are referenced
+	// (InlinableRules). Such a rule does not exist in the generated parser except as an
+	// entrypoint, so "the rule in which an error arose" is the enclosing rule.
+	Inlined map[string]bool
 	// Quirks switches on models of known defects of the implementation; they
 	// are only ever used to decide whether an observed disagreement is
 	// exactly the listed known finding (never to excuse anything else).
@@ -267,7 +271,11 @@ func (ip *Interp) ruleName() string {
 	if len(ip.rstack) == 0 {
 		return ""
 	}
-	r := ip.rstack[len(ip.rstack)-1]
+	i := len(ip.rstack) - 1
+	for i > 0 && ip.O.Inlined[ip.rstack[i].Name] {
+		i--
+	}
+	r := ip.rstack[i]
 	if r.Display != "" {
 		// pigeon keeps the display name as written, quotes included
 		return strconv.Quote(r.Display)
